@@ -224,21 +224,14 @@ fn run_local(ctx: &mut Ctx, content: Arc<Vec<u8>>, ranges: Vec<(u64, usize)>, si
     }
 }
 
-fn run_http(ctx: &mut Ctx, content: Arc<Vec<u8>>, ranges: Vec<(u64, usize)>, single: bool) {
-    let runs = if single { ranges.iter().map(|&(o, s)| (o, s as u64, 1usize)).collect() } else { adjacent_runs(&ranges) };
-    let retries = gen::draw(4);
-    let delay_s = *gen::t(|t| t.pick(&[0u64, 0, 1, 30]));
-    let timeout_s: Option<u64> = if gen::chance(1, 3) { Some(*gen::t(|t| t.pick(&[5u64, 60]))) } else { None };
-    // failure script: per run, a number of failures and their kinds
-    let mut script: Vec<Option<NetFault>> = Vec::new();
-    // per run: (failures, early_eof, expected request ranges)
+/// What a reader that follows `policy` does against the fault script: per run (failures,
+/// fatal early EOF, the Range of every request). `resume`: a re-request starts at the first
+/// byte not yet received (mandatory for chunk streams); otherwise every attempt starts over
+/// (what `read_at` does today; resuming there would satisfy the property just as well).
+fn simulate(runs: &[(u64, u64, usize)], script: &[Option<NetFault>], retries: u32, resume: bool) -> Vec<(u32, bool, Vec<(u64, u64)>)> {
     let mut plan: Vec<(u32, bool, Vec<(u64, u64)>)> = Vec::new();
-    let mut dead = false;
-    let fault_rate = *gen::t(|t| t.pick(&[0u32, 2, 2, 5, 8]));
-    for &(o, total, _) in &runs {
-        if dead {
-            break;
-        }
+    let mut req = 0usize;
+    for &(o, total, _) in runs {
         let mut delivered = 0u64;
         let mut failures = 0u32;
         let mut reqs: Vec<(u64, u64)> = Vec::new();
@@ -246,26 +239,14 @@ fn run_http(ctx: &mut Ctx, content: Arc<Vec<u8>>, ranges: Vec<(u64, usize)>, sin
         loop {
             let remaining = total - delivered;
             reqs.push((o + delivered, o + total - 1));
-            let fault = if fault_rate > 0 && gen::chance(fault_rate, 10) {
-                Some(gen::t(|t| match t.weighted(&[3, 6, 2, 1, if timeout_s.is_some() { 2 } else { 0 }]) {
-                    0 => NetFault::Refuse,
-                    1 => NetFault::CutAfter(match t.weighted(&[4, 1, 1, 1]) {
-                        0 => t.draw(remaining as u32 + 1) as usize,
-                        1 => 0,
-                        2 => remaining as usize,
-                        _ => (remaining as usize).saturating_sub(1),
-                    }),
-                    2 => NetFault::CutAfter(t.draw(remaining.min(8) as u32 + 1) as usize),
-                    3 => NetFault::EarlyEof(t.draw(remaining as u32) as usize),
-                    _ => NetFault::Stall(t.draw(remaining as u32 + 1) as usize),
-                }))
-            } else {
-                None
-            };
-            script.push(fault.clone());
+            let fault = script.get(req).cloned().flatten();
+            req += 1;
             match fault {
                 None => break,
-                Some(NetFault::EarlyEof(_)) => {
+                Some(NetFault::EarlyEof(c)) => {
+                    if (c as u64) >= remaining {
+                        break; // the "early" end came after the last requested byte
+                    }
                     early_eof = true;
                     break;
                 }
@@ -274,18 +255,11 @@ fn run_http(ctx: &mut Ctx, content: Arc<Vec<u8>>, ranges: Vec<(u64, usize)>, sin
                         NetFault::CutAfter(c) | NetFault::Stall(c) => (c as u64).min(remaining),
                         _ => 0,
                     };
-                    if single {
-                        // read_at collects the body until it has the requested size: an attempt
-                        // that fails earlier delivers nothing, one that fails later succeeded
-                        if got == total {
-                            break;
-                        }
-                    } else {
-                        delivered += got;
+                    if got == remaining {
+                        break; // everything arrived before the failure: the reader never sees it
                     }
-                    if !single && delivered == total {
-                        // everything arrived before the failure: the reader never sees it
-                        break;
+                    if resume {
+                        delivered += got;
                     }
                     failures += 1;
                     if failures > retries {
@@ -297,10 +271,45 @@ fn run_http(ctx: &mut Ctx, content: Arc<Vec<u8>>, ranges: Vec<(u64, usize)>, sin
         let fatal = early_eof || failures > retries;
         plan.push((failures, early_eof, reqs));
         if fatal {
-            dead = true;
+            break;
         }
     }
-    let n_fail: u32 = plan.iter().map(|p| p.0).sum();
+    plan
+}
+
+fn run_http(ctx: &mut Ctx, content: Arc<Vec<u8>>, ranges: Vec<(u64, usize)>, single: bool) {
+    let runs: Vec<(u64, u64, usize)> = if single { ranges.iter().map(|&(o, s)| (o, s as u64, 1usize)).collect() } else { adjacent_runs(&ranges) };
+    let retries = gen::draw(4);
+    let delay_s = *gen::t(|t| t.pick(&[0u64, 0, 1, 30]));
+    let timeout_s: Option<u64> = if gen::chance(1, 3) { Some(*gen::t(|t| t.pick(&[5u64, 60]))) } else { None };
+    // the failure script: one entry per request the server will see, drawn before anything runs
+    let fault_rate = *gen::t(|t| t.pick(&[0u32, 2, 2, 5, 8]));
+    let max_run = runs.iter().map(|r| r.1).max().unwrap_or(1);
+    let script_len = runs.len() * (retries as usize + 2) + 2;
+    let script: Vec<Option<NetFault>> = (0..script_len)
+        .map(|i| {
+            if fault_rate == 0 || !gen::chance(fault_rate, 10) {
+                return None;
+            }
+            // sizes relative to the run this request most likely belongs to
+            let size = runs[(i / (retries as usize + 1)).min(runs.len() - 1)].1.min(max_run);
+            Some(gen::t(|t| match t.weighted(&[3, 6, 2, 1, if timeout_s.is_some() { 2 } else { 0 }]) {
+                0 => NetFault::Refuse,
+                1 => NetFault::CutAfter(match t.weighted(&[4, 1, 1, 1]) {
+                    0 => t.draw(size as u32 + 1) as usize,
+                    1 => 0,
+                    2 => size as usize,
+                    _ => (size as usize).saturating_sub(1),
+                }),
+                2 => NetFault::CutAfter(t.draw(size.min(8) as u32 + 1) as usize),
+                3 => NetFault::EarlyEof(t.draw(size as u32) as usize),
+                _ => NetFault::Stall(t.draw(size as u32 + 1) as usize),
+            }))
+        })
+        .collect();
+    let plan_resume = simulate(&runs, &script, retries, true);
+    let plan_restart = simulate(&runs, &script, retries, false);
+
     let mut srv = Server::new(content.clone());
     srv.frag = net::draw_body_frag();
     // with a request timeout the scripted delays must stay far below it, or a timeout the plan
@@ -353,6 +362,19 @@ fn run_http(ctx: &mut Ctx, content: Arc<Vec<u8>>, ranges: Vec<(u64, usize)>, sin
     let log = server.lock().unwrap().log.clone();
     net::uninstall();
     let elapsed = simkit::now_ns() - t0;
+    // chunk streams must resume; single reads may resume or start over: whichever the observed
+    // requests follow is then held to its own consequences
+    let ranges_of = |plan: &Vec<(u32, bool, Vec<(u64, u64)>)>| -> Vec<String> { plan.iter().flat_map(|(_, _, reqs)| reqs.iter().map(|(a, b)| format!("bytes={}-{}", a, b))).collect() };
+    let observed: Vec<String> = log.iter().map(|l| l.range.clone().unwrap_or_default()).collect();
+    let plan = if single && observed != ranges_of(&plan_restart) && observed == ranges_of(&plan_resume) {
+        simkit::count("single-read-resumed");
+        plan_resume.clone()
+    } else if single {
+        plan_restart.clone()
+    } else {
+        plan_resume.clone()
+    };
+    let n_fail: u32 = plan.iter().map(|p| p.0).sum();
     let items = match r {
         Ok(End::Done(items)) => items,
         Ok(e) => {
